@@ -17,6 +17,7 @@ import SpecVerif.Model.Object
 import SpecVerif.Model.ObjectF
 import SpecVerif.Model.Window
 import SpecVerif.Model.Criteria
+import SpecVerif.Model.EigenCrit
 import SpecVerif.Model.Dpss
 import SpecVerif.Model.Lpc
 /-
@@ -491,6 +492,13 @@ def handleReal (cmd : String) (hd : List String) (vs : List (List CFloat)) : Opt
       let re := fun (v : List CFloat) => v.map (fun z => z.re)
       let r := dpssGlue Nn (par 0) ((vs.drop 2).map re) (re (vs.getD 1 []))
       some (.ok ((r.1 ++ [r.2]).map (fun w => w.map (fun v => (⟨v, 0.0⟩ : CFloat)))))
+  | "eigcrit" =>
+      -- eigcrit aic|mdl NP | S      → criterion values (aic_eigen / mdl_eigen of S with N = 2·NP), [NSIG = argmin + 1]
+      let S := (vs.getD 0 []).map (fun z => z.re)
+      let mdl := strAt hd 0 == "mdl"
+      let vals := if mdl then mdlEigen S (2 * N) else aicEigen S (2 * N)
+      if vals.isEmpty then some (.error "value")      -- numpy.argmin of an empty sequence raises ValueError
+      else some (.ok ([vals, [Float.ofNat (signalSpaceCrit S N mdl)]].map (fun w => w.map (fun v => (⟨v, 0.0⟩ : CFloat)))))
   | "enbw" => out [enbw ((vs.getD 0 []).map (fun z => z.re))]
   | "rc2lar" => out ((vs.getD 0 []).map (fun z => rc2lar z.re))
   | "lar2rc" => out ((vs.getD 0 []).map (fun z => lar2rc z.re))
